@@ -341,6 +341,44 @@ _ADDENDA = {
     'C20': "Override sequences include the same field twice, interleaved classes and calls failing half-way "
            "(restoration must still be complete).",
 }
+# Rules added after the fourth round (DESIGN.md 10.8).
+_ADDENDA4 = {
+    'C01': "The resolver is executed as callers get it: resolve() wrapped by its own decorators.",
+    'C02': "Feedback._get_message is executed for templates rendering to text, blanks or nothing (a triggered "
+           "feedback always has a message, R8) and Feedback.__init__ for explicit falsy correct/muted/kind (R9); the "
+           "resolver is executed through its decorators (a second resolve sees feedback added in between).",
+    'C03': "Suppression tables built by executing Report.suppress itself are checked against a call-level oracle; "
+           "Feedback.__init__ is executed for explicit falsy valence/score/unscored/muted (R8).",
+    'C04': "wrap_fields executed on a hostile value must not convert it; format_line is executed with and without "
+           "column information under every interpreter-version switch.",
+    'C05': "The coverage style is modelled (coverage's collector stack and the patch of its source reader) and run "
+           "through the same enter/exit sequences; what _start_mocking hands to _start_patches must be objects made "
+           "by unittest.mock's patch/patch.dict, one per borrowed target.",
+    'C07': "The documented options explanation=/context=/assertion= must not reach condition() (R11); delta=None / "
+           "omitted / explicit is executed through constructor and condition with the real equality_test (R12); "
+           "dictionary keys equal only after normalisation, and output ending in a blank line, are in the tables.",
+    'C08': "reparse_if_needed is executed (with the real _parse_source and the tool's own reset()) over sequences that "
+           "include explicit code CPython rejects; find_all is run on a program whose operator instance is shared.",
+    'C10': "Lists of identifiers (global/nonlocal names) are content: shallow_match_main is tabulated on them.",
+    'C12': "The parse must be made in CPython's default mode; Submission.get_lines must split like the fallback "
+           "tables built next to it.",
+    'C13': "Every registered builtin-module loader is executed twice and must share no type object; every Type "
+           "subclass's effective constructor must leave the instance with its own fields table; lazy tool reset, "
+           "environment set-up and contextualize_report are executed instead of pattern-matched.",
+    'C14': "timeout() interprets the real terminate(); the grader may be inside an except block.",
+    'C15': "Queue commands, clear_input/clear_output and the tracker installation are executed on a model sandbox.",
+    'C16': "Exact conversions are executed on a value without dunders and with the builtin rejecting the value; any "
+           "in-place dunder must not rebind what the proxy wraps (R9).",
+    'C17': "After stop_sections() or a section past the end no line offset stays in force; the TIFA cache must "
+           "distinguish identical text under different offsets; TIFA's offset is followed through process_ast, "
+           "reset() and locate().",
+    'C18': "Container literal visitors (R1d), fresh copies per builtin look-up (R5b), issue constructors recording "
+           "their location and position-less nodes (R6), cache keyed with the line offset (R2).",
+    'C20': "Feedback.__init__ per attribute with falsy explicit values (R8), add_feedback/add_ignored_feedback "
+           "agreement over parent kinds (R9), log()/debug() forwarding their message (R10).",
+}
+for _k, _v in _ADDENDA4.items():
+    CLAIMS[_k]['text'] = CLAIMS[_k]['text'].rstrip() + ' ' + _v
 for _k, _v in _ADDENDA.items():
     CLAIMS[_k]['text'] = CLAIMS[_k]['text'].rstrip() + ' ' + _v
 CLAIMS['C07']['note'] = CLAIMS['C07']['note'].replace(", the output-assertion family beyond the errors() disjunct", "; equality_test's normalisation is taken as given by the output-assertion rule")
